@@ -840,6 +840,10 @@ enum Op {
     /// `Layout::size(dim)` / `Layout::stride(dim)`
     Size(usize),
     Stride(usize),
+    /// `Tensor::reshape(shape)` (in place; `TensorBase<Vec<T>, DynLayout>` only)
+    Reshape(Vec<usize>),
+    /// `make_contiguous()`
+    MakeContig,
 }
 
 #[derive(Clone, Debug)]
@@ -866,6 +870,8 @@ fn fmt_gcase(c: &GCase) -> String {
             Op::MoveAxis(f, t) => format!("mv:{f},{t}"),
             Op::Size(d) => format!("sz:{d}"),
             Op::Stride(d) => format!("sd:{d}"),
+            Op::Reshape(sh) => format!("rs:{}", list(sh)),
+            Op::MakeContig => "mc:-".into(),
         })
         .collect();
     format!(
@@ -915,6 +921,8 @@ fn parse_gcase(line: &str) -> GCase {
                             }
                             "sz" => Op::Size(arg.parse().unwrap()),
                             "sd" => Op::Stride(arg.parse().unwrap()),
+                            "rs" => Op::Reshape(parse_list(arg)),
+                            "mc" => Op::MakeContig,
                             _ => {
                                 let a = parse_list(arg);
                                 Op::Clip(a[0], a[1], a[2])
@@ -935,6 +943,7 @@ macro_rules! rz_dyn {
         match $op {
             Op::RemoveAxis(i) => Some(hcommon::catch(|| $t.remove_axis(*i)).is_ok()),
             Op::InsertAxis(i) => Some(hcommon::catch(|| $t.insert_axis(*i)).is_ok()),
+            Op::Reshape(sh) => Some(hcommon::catch(|| $t.reshape(sh.as_slice())).is_ok()),
             _ => None,
         }
     };
@@ -955,7 +964,8 @@ macro_rules! gen_grow_runner {
             if v.capacity() != c.cap {
                 return ("capacity-differs".into(), None);
             }
-            let base = v.as_ptr() as usize;
+            let mut base = v.as_ptr() as usize;
+            let mut cap_known = true;
             let shape = c.shape.clone();
             let strides = c.strides.clone().unwrap_or_default();
             let built = hcommon::catch(|| match &c.strides {
@@ -998,7 +1008,11 @@ macro_rules! gen_grow_runner {
                         Ok(()) => format!("ok[{}]dl={}", list(&sizes(&t.shape())), t.storage_mut().len()),
                         Err(_) => "panic".into(),
                     },
-                    Op::RemoveAxis(_) | Op::InsertAxis(_) => match $rz!(t, op) {
+                    Op::MakeContig => match hcommon::catch(|| t.make_contiguous()) {
+                        Ok(()) => "ok".into(),
+                        Err(_) => "panic".into(),
+                    },
+                    Op::RemoveAxis(_) | Op::InsertAxis(_) | Op::Reshape(_) => match $rz!(t, op) {
                         Some(true) => "ok".into(),
                         Some(false) => "panic".into(),
                         None => "n/a".into(),
@@ -1020,10 +1034,17 @@ macro_rules! gen_grow_runner {
                 let a = format!("{a}@{}|{}", list(&sizes(&t.shape())), list(&sizes(&t.strides())));
                 // oracle on the tensor as it is now
                 let dl = t.storage_mut().len();
-                if t.data_ptr() as usize != base {
+                if matches!(op, Op::Reshape(_) | Op::MakeContig) {
+                    // these may move the elements into a new Vec (also when they panic later)
+                    if t.data_ptr() as usize != base {
+                        base = t.data_ptr() as usize;
+                        cap_known = false;
+                    }
+                } else if t.data_ptr() as usize != base {
                     fail.set(format!("after {:?}: storage pointer changed", op));
                 }
-                if dl > c.cap {
+                let a = format!("{a};dl={dl}");
+                if cap_known && dl > c.cap {
                     fail.set(format!("after {:?}: storage length {dl} exceeds capacity {}", op, c.cap));
                 }
                 let cur = sizes(&t.shape());
@@ -1166,7 +1187,7 @@ fn gen_grow(rng: &mut Rng, ovf: bool, huge: bool) -> GCase {
     };
     for _ in 0..1 + rng.usize_below(4) {
         let rank = cur.len();
-        match rng.below(16) {
+        match rng.below(18) {
             0 | 1 | 2 => {
                 let axis = pick_axis(rng, rank, None);
                 let n = match rng.below(6) {
@@ -1214,6 +1235,36 @@ fn gen_grow(rng: &mut Rng, ovf: bool, huge: bool) -> GCase {
                 }
             }
             13 => ops.push(if rng.chance(1, 2) { Op::Size(pick_axis(rng, rank, None)) } else { Op::Stride(pick_axis(rng, rank, None)) }),
+            14 => {
+                // reshape: same element count (flattened, reversed, with a unit dim), or a
+                // mismatching / too large shape (the call panics)
+                let n: usize = cur.iter().fold(1usize, |a, &b| a.wrapping_mul(b));
+                let target: Vec<usize> = match rng.below(8) {
+                    0 => vec![n],
+                    1 => cur.iter().rev().copied().collect(),
+                    2 => {
+                        let mut t = vec![1];
+                        t.extend(cur.iter().copied());
+                        t
+                    }
+                    3 => vec![n.wrapping_add(1)],
+                    4 => vec![5],
+                    5 => vec![huge_value(rng), 2],
+                    6 if rank >= 2 => {
+                        let mut t = cur.clone();
+                        let a = t.remove(0);
+                        t[0] = t[0].wrapping_mul(a);
+                        t
+                    }
+                    _ => vec![n, 1],
+                };
+                let ok = !nd && target.iter().fold(1usize, |a, &b| a.wrapping_mul(b)) == n && target.iter().all(|&x| x < (1 << 30));
+                ops.push(Op::Reshape(target.clone()));
+                if ok {
+                    cur = target;
+                }
+            }
+            15 => ops.push(Op::MakeContig),
             _ => {
                 let axis = pick_axis(rng, rank, Some(d));
                 let mut other = cur.clone();
@@ -1253,7 +1304,49 @@ fn gcase_danger(c: &GCase) -> bool {
             Op::Clip(_, s, e) => *s > T || *e > T,
             Op::RemoveAxis(i) | Op::InsertAxis(i) | Op::Size(i) | Op::Stride(i) => *i > T,
             Op::MoveAxis(f, t) => *f > T || *t > T,
+            Op::Reshape(sh) => big(sh),
+            Op::MakeContig => false,
         })
+}
+
+/// Audit round 2 (open finding): raw storage handles.  `storage_mut()` returns the whole storage
+/// of a view (including elements the view's layout does not address), `ViewMutData::split_mut`
+/// documents that it does not check disjointness, and `from_storage_and_layout` is safe.
+/// Returns (answer, oracle failure).
+fn storage_route(route: u32) -> (String, Option<String>) {
+    use rten_tensor::NdTensor;
+    let r = hcommon::catch(|| match route {
+        1 => {
+            let mut t = NdTensor::<u32, 1>::from_data([4], vec![0, 1, 2, 3]);
+            let (a, b) = t.storage_mut().split_mut(0..4, 0..4);
+            let mut va = TensorBase::<_, NdLayout<1>>::from_storage_and_layout(a, NdLayout::from_shape([4]));
+            let mut vb = TensorBase::<_, NdLayout<1>>::from_storage_and_layout(b, NdLayout::from_shape([4]));
+            // both views are alive here
+            let pa = va.get_mut([1]).map(|r| r as *mut u32 as usize);
+            let pb = vb.get_mut([1]).map(|r| r as *mut u32 as usize);
+            (pa, pb)
+        }
+        _ => {
+            let mut t = NdTensor::<u32, 2>::from_data([2, 3], vec![0, 1, 2, 3, 4, 5]);
+            let (mut l, mut r) = t.view_mut().split_at_mut(1, 1);
+            // storage ranges of the halves: 0..4 and 1..6
+            let sl = l.storage_mut();
+            let sr = r.storage_mut();
+            let mut va = TensorBase::<_, NdLayout<1>>::from_storage_and_layout(sl, NdLayout::from_shape([4]));
+            let mut vb = TensorBase::<_, NdLayout<1>>::from_storage_and_layout(sr, NdLayout::from_shape([5]));
+            let pa = va.get_mut([1]).map(|r| r as *mut u32 as usize);
+            let pb = vb.get_mut([0]).map(|r| r as *mut u32 as usize);
+            (pa, pb)
+        }
+    });
+    match r {
+        Ok((Some(pa), Some(pb))) if pa == pb => (
+            "alias=1".into(),
+            Some(format!("storage handles route {route}: two live mutable views built with safe calls address the same element")),
+        ),
+        Ok(_) => ("alias=0".into(), None),
+        Err(_) => ("panic".into(), None),
+    }
 }
 
 /// Child process that executes requests read from stdin, one answer line each.
@@ -1920,6 +2013,9 @@ fn main() {
         gcases.push(GCase { ovf, nd, shape: vec![2, 3], strides: None, len: 6, cap: 6, ops: vec![Op::InsertAxis(3)] });
         gcases.push(GCase { ovf, nd, shape: vec![2, 3], strides: None, len: 6, cap: 12, ops: vec![Op::Size(2), Op::Stride(2), Op::Stride(usize::MAX), Op::HasCap(3, 2), Op::Append(2, vec![2, 3]), Op::MoveAxis(0, 2)] });
     }
+    // audit round 2: reshape of a non-contiguous tensor to a mismatching shape
+    gcases.push(GCase { ovf, nd: false, shape: vec![2, 3], strides: None, len: 6, cap: 6, ops: vec![Op::Clip(1, 0, 1), Op::Reshape(vec![5]), Op::Size(0)] });
+    gcases.push(GCase { ovf, nd: false, shape: vec![2, 3], strides: None, len: 6, cap: 6, ops: vec![Op::Clip(1, 0, 2), Op::Reshape(vec![4]), Op::MakeContig, Op::Reshape(vec![2, 2, 1])] });
     let (n_grow, n_grow_huge) = if args.thorough { (200_000, 40_000) } else { (20_000, 4_000) };
     for _ in 0..n_grow {
         gcases.push(gen_grow(&mut rng, ovf, false));
@@ -1960,12 +2056,15 @@ fn main() {
                 Op::InsertAxis(..) => "op_insert_axis",
                 Op::MoveAxis(..) => "op_move_axis",
                 Op::Size(..) | Op::Stride(..) => "op_size_stride",
+                Op::Reshape(..) => "op_reshape",
+                Op::MakeContig => "op_make_contiguous",
             });
             let rank = c.shape.len();
             let oob_axis = match o {
                 Op::HasCap(a, _) | Op::Append(a, _) | Op::Clip(a, _, _) | Op::RemoveAxis(a) | Op::Size(a) | Op::Stride(a) => *a >= rank,
                 Op::InsertAxis(a) => *a > rank,
                 Op::MoveAxis(f, t) => *f >= rank || *t >= rank,
+                Op::Reshape(_) | Op::MakeContig => false,
             };
             if oob_axis {
                 out.bucket(if c.nd { "op_axis_out_of_range_nd" } else { "op_axis_out_of_range_dyn" });
@@ -1981,9 +2080,15 @@ fn main() {
         let nontrivial = ans.contains("ok[");
         out.case(&req, &ans, fail.as_deref(), nontrivial);
     }
+    // raw storage handles (oracle-only lines: there is no model of storage identity)
+    for route in [1u32, 2] {
+        let (ans, fail) = storage_route(route);
+        out.bucket("storage_handle_routes(oracle only)");
+        out.case(&format!("# storage-handles route={route}"), &ans, fail.as_deref(), false);
+    }
     if let Some(w) = worker {
         w.kill();
     }
     out.note(&format!("child-process crashes observed: {crashes}"));
-    out.finish("random API programs on rten-tensor: constructor (try_from_data, from_data, from_data_with_strides, from_slice_with_strides, from_storage_and_layout after resize_dim, from_shape; NdLayout rank 1-4 and DynLayout rank 0-4) with small shapes (contiguous, permuted, stepped, broadcast, perturbed, arbitrary strides; exact, short, long storage) and huge/overflowing shapes and strides (products wrapping to small numbers, (size-1)*stride wrapping, zero dims mixed with huge dims), followed by probes get/get_mut/Index/IndexMut (in and out of bounds), split_at(_mut), slice_axis(_mut), try_broadcast (incl. huge targets), iter(_mut), try_slice / try_slice_mut with indices and step-1 ranges in every spelling (negative, open, empty, in-bounds reversed, out of bounds; static-rank and dynamic paths; an exhaustive start/end sweep on small tensors) whose result views are checked for storage containment, storage length >= ideal min_data_len and in-storage indexing; plus programs on owned tensors with spare capacity (contiguous / gapped / huge-stride layouts with an empty or unit growth axis): has_capacity (small and huge sizes), append of zero-stride views (matching, mismatching, huge), clip_dim, remove_axis / insert_axis (DynLayout), move_axis, size / stride — each with valid axes and, for both layout kinds, axes past the rank (inside and beyond the stride half of DynLayout's array, near usize::MAX); every answer carries the layout as it is afterwards, with the no-alias / in-storage oracle re-evaluated after every operation including panicking ones; non-trivial = accepted, rank>=2, no empty dim, some dim>1, at least one probe; distinct by request text");
+    out.finish("random API programs on rten-tensor: constructor (try_from_data, from_data, from_data_with_strides, from_slice_with_strides, from_storage_and_layout after resize_dim, from_shape; NdLayout rank 1-4 and DynLayout rank 0-4) with small shapes (contiguous, permuted, stepped, broadcast, perturbed, arbitrary strides; exact, short, long storage) and huge/overflowing shapes and strides (products wrapping to small numbers, (size-1)*stride wrapping, zero dims mixed with huge dims), followed by probes get/get_mut/Index/IndexMut (in and out of bounds), split_at(_mut), slice_axis(_mut), try_broadcast (incl. huge targets), iter(_mut), try_slice / try_slice_mut with indices and step-1 ranges in every spelling (negative, open, empty, in-bounds reversed, out of bounds; static-rank and dynamic paths; an exhaustive start/end sweep on small tensors) whose result views are checked for storage containment, storage length >= ideal min_data_len and in-storage indexing; plus programs on owned tensors with spare capacity (contiguous / gapped / huge-stride layouts with an empty or unit growth axis): has_capacity (small and huge sizes), append of zero-stride views (matching, mismatching, huge), clip_dim, remove_axis / insert_axis (DynLayout), move_axis, size / stride, in-place reshape (matching, mismatching, too large) and make_contiguous — each with valid axes and, for both layout kinds, axes past the rank (inside and beyond the stride half of DynLayout's array, near usize::MAX); every answer carries the layout as it is afterwards, with the no-alias / in-storage oracle re-evaluated after every operation including panicking ones; non-trivial = accepted, rank>=2, no empty dim, some dim>1, at least one probe; distinct by request text");
 }
